@@ -148,6 +148,16 @@ def redirPlaintextHost (c : Site) : Site :=
 def wantsRedirect (c : Site) : Bool :=
   c.enabled && !c.noRedirect && c.scheme != b!"http" && c.port != httpPort
 
+/-- hostHasRedirectingSiteOnPort: like hostHasOtherPort, but the other site must want a redirect itself -/
+def hostHasRedirectingSiteOnPort (all : List Site) (idx : Nat) (other : Bytes) : Option Bool :=
+  match all[idx]? with
+  | none => none
+  | some this =>
+    some ((List.range all.length).any fun i =>
+      i != idx && match all[i]? with
+        | some o => o.host == this.host && o.port == other && wantsRedirect o
+        | none => false)
+
 /-- the loop of makePlaintextRedirects: `i` runs over the ORIGINAL configs (`todo`), while
 hostHasOtherPort looks at the list as grown so far (`all`) — the append-while-ranging behaviour of the Go code. -/
 def redirectsGo : List Site → Nat → List Site → List Site
@@ -155,7 +165,7 @@ def redirectsGo : List Site → Nat → List Site → List Site
   | c :: todo, i, all =>
     let want := wantsRedirect c &&
       hostHasOtherPort all i httpPort == some false &&
-      (c.port == httpsPort || hostHasOtherPort all i httpsPort == some false)
+      (c.port == httpsPort || hostHasRedirectingSiteOnPort all i httpsPort == some false)
     redirectsGo todo (i + 1) (if want then all ++ [redirPlaintextHost c] else all)
 
 /-- makePlaintextRedirects -/
